@@ -26,6 +26,9 @@ FIXED = {  # commit subject prefix -> (property, key, what failed)
  "fix: Demux.Cancel and Stop no longer panic": ("C18", "demux-cancel-close", "Cancel(key) while the run loop is parked handing an envelope to that key (or a writer is parked / writes afterwards): send on closed channel; Stop with the run loop parked on a hand-off never returns"),
  "fix: the HTTP transport's idle cleanup no longer panics": ("C19", "http-cleaner-vs-sender-and-read-ctx", "idle cleaner closes the delivery channel while ServeHTTP is parked sending on it: send on closed channel; httpReadWriter.Read ignores its context"),
  "fix: the HTTP transport's Write honours": ("C19", "http-write-ctx", "httpReadWriter.Write ignores its context: blocked POST does not return on cancel"),
+ "fix: once the client read loop has dropped an Rpc of a departing call": ("C09", "drop-then-deliver-hole", "a stream whose caller gives up after a failed send (teardown closes the call's gone channel, then queues for the registry mutex) while the read loop is just handing it a message and then the trailer: per Rpc the read loop chose at random between delivering and dropping, so the message could be dropped and the trailer delivered - RecvMsg then reported io.EOF with the message missing (found by the lazy, send-first callers added to TestC09 for seeded change C09j; about one case in a thousand)"),
+ "fix: an envelope with an empty return route no longer crashes the proxy": ("C17", "proxy-empty-return-route", "an attached peer sends, over a by-reference (in-process) transport, an envelope with its true source whose ProxyNext is an empty non-nil list (what a previous proxy leaves after consuming the last element of a return route): forwardRpc indexes element -1 and panics Proxy.Serve (found by the odd-route mode added to TestC17 for seeded change C17j)"),
+ "fix: a send whose transport write failed no longer deadlocks": ("C09", "send-fail-vs-parked-dispatch", "a bidirectional stream whose caller is three response envelopes behind (one handed to the stream, one queued, the connection's read loop parked on the third, holding the registry mutex); the transport breaks (reads and writes fail); the caller sends before it receives: the failed write asks for the read loop's error under that same mutex, so SendMsg hangs forever and with it every other call in flight on the connection (found when lazy receivers were added to TestC09 for seeded change C09j)"),
  "fix: a receive on a stream torn down by a failed send reports the context's status": ("C07", "recv-respchan-closed-on-cancel", "a second goroutine of the caller is sending when the context is cancelled: its SendMsg fails, tears the stream down and closes the response channel; the read loop's select then has the closed channel and ctx.Done() ready and picks at random, so the pending receive reports Unknown 'respChan closed' instead of Canceled (found by TestC07SendRace, written for seeded change C07i)"),
  "fix: a stream's trailer is written even when the stream's own context is already done": ("C06", "trailer-dropped-after-deadline", "a streaming handler that returns after its stream's grpc-timeout deadline has passed (caller has not reset, connection alive): the trailer with the final status is written only about half the time, because the per-stream writer selects at random between the done stream context and the ready connection writer (found by TestC06Deadline, written for seeded change C06f)"),
  "fix: stats End reports the error of an RPC that failed with io.EOF": ("C20", "stats-end-eof-nil", "a unary RPC refused or failed because the transport's Read returned io.EOF (or an error wrapping it), or a handler error wrapping io.EOF: the caller gets an error but every stats handler's End.Error is nil (found when the fault-error-kind dimension was added after seeded round 4)"),
